@@ -14,14 +14,23 @@
     states.  `Globals.lookupClassBody` is `LOAD_NAME` when the locals are a *different* mapping (a
     class body, `exec`/`eval` called inside a function): CPython 3.12 then reads the globals with
     `PyDict_GetItem`, which never calls `__missing__`.
-  * the split of the code text (`EvalNode.on_evaluate_impl`): `self.strip().split('\n')`, every line
-    split on `';'`, all pieces but the last are executed, the last one (stripped) is evaluated:
-    `splitStmts`, `splitCodeL`, `splitCode`.  The split is textual: it does not know string literals.
+  * what the code does with its text (`EvalNode.on_evaluate_impl`): `ast.parse(self.strip())`, all
+    statements but the last are compiled as a module and executed, the last statement must be an
+    expression statement and is evaluated, anything else is a `SyntaxError` (wrapped in `EvalError`).
+    The parser is Python's — part of the reference that the harness samples — so the model starts from
+    the parsed body, an abstract list of statements (`Stmt`), and states what is done with it:
+    `splitStmts`, `multiStmt`.
   * f-string normalisation (yaml.py `_fstr_regex`, `_fstr_constructor._maybe_fix_fstr`,
-    nodes/fstr.py `FStrNode.__init__`): `fstrRegex`, `wellFormed`, `escapeQ`, `normFstrL`, `normFstr`.
+    nodes/fstr.py `FStrNode.__init__`): `fstrRegex`, `wellFormed`, `quotes`, `fits`, `escapeQ`,
+    `normFstrL`, `normFstr`.  An explicit `!fstr fmt` gets the first delimiter among `'`, `"`, `'''`,
+    `"""` that does not occur in the text, does not collide with its last character and can span the
+    text's newlines; only when none fits is every single quote escaped.
   * the namespace registry (`sys.modules['awesomeyaml.eval_node_namespace.<path>_0x<md5>']`) across
-    the builds of one process: `evalStep`, `runHist`.  A binding remembers which build supplied it,
-    so that "the value depends only on the current build" is a statement about provenance.
+    the builds of one process: `evalStep`, `runHist`.  The registry is write-only: every evaluation
+    builds its namespace from the current context (`ayns`, the eval symbols, `__name__`, `__file__`)
+    and a module is only (re)published, for persistent nodes whose code has more than one statement.
+    A binding remembers which build supplied it, so that "the value depends only on the current
+    build" is a statement about provenance.
 
   Texts are `List Char` (`Str`); the `String` functions are wrappers.  Idealisations: md5 is
   injective on the code texts of one process (the registry key is the pair (mangled path, code));
@@ -129,7 +138,7 @@ def freshDict (c : Ctx) : Dict :=
 /-- the stores performed by the code of build `b` -/
 def execDefs (defs : List String) (b : Nat) (d : Dict) : Dict := Dict.setAll d defs ⟨.defn, b⟩
 
-/-! ### 2. the split of the code text -/
+/-! ### 2. the code text: `strip`, and what is done with the parsed statements -/
 
 /-- `str.isspace` for one character (the set used by `str.strip()` and by `\s` in `re`) -/
 def pySpace (c : Char) : Bool :=
@@ -146,35 +155,27 @@ def rstrip : Str → Str
 /-- `str.strip()` -/
 def strip (s : Str) : Str := rstrip (lstrip s)
 
-/-- first piece and remaining pieces of `s.split(sep)` -/
-def splitAux (sep : Char) : Str → Str × List Str
-  | [] => ([], [])
-  | c :: cs =>
-    let r := splitAux sep cs
-    if c = sep then ([], r.1 :: r.2) else (c :: r.1, r.2)
+/-- a top-level statement of `ast.parse(code).body`: all the model needs is whether it is an
+expression statement (`ast.Expr`); `src` is its source text (`ast.unparse`) -/
+inductive Stmt where
+  | expr (src : String)
+  | other (src : String)
+  deriving DecidableEq, Repr
 
-/-- `s.split(sep)` for a one-character separator (never empty) -/
-def splitOn (sep : Char) (s : Str) : List Str := (splitAux sep s).1 :: (splitAux sep s).2
+def Stmt.src : Stmt → String
+  | .expr s => s
+  | .other s => s
 
-/-- `sep.join(pieces)` -/
-def joinSep (sep : Char) : List Str → Str
-  | [] => []
-  | [p] => p
-  | p :: q :: rest => p ++ sep :: joinSep sep (q :: rest)
+/-- `if not tree.body or not isinstance(tree.body[-1], ast.Expr): raise SyntaxError(...)`, else
+`(ast.Module(tree.body[:-1]), ast.Expression(tree.body[-1].value))`: the statements that are executed
+and the expression that is evaluated; `none` = `SyntaxError` -/
+def splitStmts (body : List Stmt) : Option (List Stmt × String) :=
+  match body.getLast? with
+  | some (.expr e) => some (body.dropLast, e)
+  | _ => none
 
-/-- `lines = self.strip().split('\n'); lines = [l for line in lines for l in line.split(';')]` -/
-def splitStmts (code : Str) : List Str := (splitOn '\n' (strip code)).flatMap (splitOn ';')
-
-/-- `(lines[:-1], lines[-1].strip())` — the pieces joined by newlines are `exec`uted, then the last
-one is `eval`uated -/
-def splitCodeL (code : Str) : List Str × Str :=
-  ((splitStmts code).dropLast, strip ((splitStmts code).getLast?.getD []))
-
-def splitCode (code : String) : List String × String :=
-  ((splitCodeL code.toList).1.map String.ofList, String.ofList (splitCodeL code.toList).2)
-
-/-- `len(lines) > 1`: the code has an `exec` part -/
-def multiLineL (code : Str) : Bool := !(splitCodeL code).1.isEmpty
+/-- `len(tree.body) > 1`: the code has an executed part -/
+def multiStmt (body : List Stmt) : Bool := decide (body.length > 1)
 
 /-! ### 3. f-string normalisation -/
 
@@ -205,8 +206,35 @@ def escapeQ : Str → Str
 /-- the literal `f'fmt'` / `f"fmt"` -/
 def fLit (q : Char) (fmt : Str) : Str := 'f' :: q :: fmt ++ [q]
 
-/-- `_maybe_fix_fstr`: the code text of the f-string node built from a scalar -/
-def fixFstr (s : Str) : Str := if wellFormed s then s else fLit '\'' (escapeQ s)
+/-- the candidate delimiters, in the order `_maybe_fix_fstr` tries them -/
+def quotes : List Str := [['\''], ['"'], ['\'', '\'', '\''], ['"', '"', '"']]
+
+def isPrefix : Str → Str → Bool
+  | [], _ => true
+  | _ :: _, [] => false
+  | p :: ps, c :: cs => p == c && isPrefix ps cs
+
+/-- `pat in s` for strings -/
+def hasSub (pat : Str) : Str → Bool
+  | [] => pat.isEmpty
+  | c :: cs => isPrefix pat (c :: cs) || hasSub pat cs
+
+/-- `quote not in value and not value.endswith(quote[0]) and ('\n' not in value or len(quote) == 3)` -/
+def fits (value quote : Str) : Bool :=
+  !hasSub quote value && !(value.getLast? == quote.head?) &&
+    (!value.contains '\n' || quote.length == 3)
+
+/-- `'f' + quote + value + quote` -/
+def fLitQ (q : Str) (fmt : Str) : Str := 'f' :: q ++ fmt ++ q
+
+/-- `_maybe_fix_fstr`: the code text of the f-string node built from a scalar: the scalar itself when
+it already is a literal; else the text between the first delimiter that fits; else (no delimiter
+fits) the old escaping of every single quote -/
+def fixFstr (s : Str) : Str :=
+  if wellFormed s then s
+  else match quotes.find? (fits s) with
+    | some q => fLitQ q s
+    | none => fLit '\'' (escapeQ s)
 
 /-- the code of the `FStrNode` a scalar `s` becomes: `explicit` = the scalar carries the `!fstr` tag;
 otherwise the implicit resolver must match, else the scalar is not an f-string node at all -/
@@ -216,8 +244,11 @@ def normFstrL (explicit : Bool) (s : Str) : Option Str :=
 def normFstr (explicit : Bool) (s : String) : Option String :=
   (normFstrL explicit s.toList).map String.ofList
 
-/-- the format text inside a literal `f<q>…<q>` -/
+/-- the format text inside a literal `f<q>…<q>` with a one-character delimiter -/
 def fstrBody (lit : Str) : Str := (lit.drop 2).dropLast
+
+/-- the format text inside a literal `f<q>…<q>` for the delimiter `q` -/
+def fstrText (q : Str) (lit : Str) : Str := (lit.drop (1 + q.length)).take (lit.length - 1 - 2 * q.length)
 
 /-! ### 4. the namespace registry across builds -/
 
@@ -232,13 +263,14 @@ abbrev Key := Str × Str
 structure Req where
   path : Str              -- `str(path)` of the node
   code : Str              -- `str(self)`
+  stmts : Nat             -- `len(tree.body)` (Python's parser; an input)
   persistent : Bool       -- `persistent_namespace`: true for `!eval`, false for f-strings
   defs : List String      -- the names the code stores into its globals in this run
-  fails : Bool := false   -- the user code raises: nothing is written back or published
+  fails : Bool := false   -- the code does not parse or raises: nothing is published
   deriving DecidableEq, Repr
 
 def Req.key (r : Req) : Key := (mangleL r.path, r.code)
-def Req.multiLine (r : Req) : Bool := multiLineL r.code
+def Req.multi (r : Req) : Bool := decide (r.stmts > 1)
 
 /-- `sys.modules` restricted to the eval-node modules: module name ↦ module `__dict__` -/
 abbrev Registry := List (Key × Dict)
@@ -249,29 +281,16 @@ def Registry.get : Registry → Key → Option Dict
 
 def Registry.set (reg : Registry) (k : Key) (d : Dict) : Registry := (k, d) :: reg
 
-/-- the dict the code's namespace is initialised from, as the CURRENT code does it:
-`sys.modules[name].__dict__` if the node is persistent and the module exists, else a fresh dict -/
-def baseDict (reg : Registry) (c : Ctx) (r : Req) : Dict :=
-  match (if r.persistent then Registry.get reg r.key else none) with
-  | some d => d
-  | none => freshDict c
-
-def fromModule (reg : Registry) (r : Req) : Bool :=
-  r.persistent && (Registry.get reg r.key).isSome
+/-- the step publishes a module: `len(tree.body) > 1 and self.persistent_namespace`, reached only when
+the code ran to completion -/
+def publishes (r : Req) : Bool := r.persistent && r.multi && !r.fails
 
 /-- `on_evaluate_impl`: the namespace the code has run in (after its stores), and the registry
-afterwards.  `gbls = EvalGlobals(base, ctx.ecfg, …)` copies `base` and always consults the config of
-the current build; afterwards `module_gbls.update(gbls)` (from_module) or a new module is published
-(multi-line persistent code only). -/
+afterwards.  `gbls` is always built from the current context and wrapped in an `EvalGlobals` that
+consults the config of the current build; the registry is never read. -/
 def evalStep (reg : Registry) (c : Ctx) (r : Req) : Globals × Registry :=
-  let base := baseDict reg c r
-  let g : Globals := { dict := execDefs r.defs c.build base, cfg := c.cfg, build := c.build }
-  let reg' :=
-    if r.fails then reg
-    else if fromModule reg r then Registry.set reg r.key (Dict.update base g.dict)
-    else if r.multiLine && r.persistent then Registry.set reg r.key g.dict
-    else reg
-  (g, reg')
+  let g : Globals := { dict := execDefs r.defs c.build (freshDict c), cfg := c.cfg, build := c.build }
+  (g, if publishes r then Registry.set reg r.key g.dict else reg)
 
 abbrev Step := Ctx × Req
 
@@ -287,14 +306,5 @@ def runReg : Registry → List Step → Registry
 
 /-- the namespace the step would run in in a fresh process: a function of the step's own context -/
 def freshGlobals (s : Step) : Globals := (evalStep [] s.1 s.2).1
-
-/-- the step publishes a module -/
-def publishes (s : Step) : Bool := s.2.persistent && s.2.multiLine && !s.2.fails
-
-/-- no published module is met again by a later persistent node with the same key -/
-def NoReuse : List Step → Prop
-  | [] => True
-  | s :: rest =>
-    (publishes s = true → ∀ t ∈ rest, t.2.persistent = true → t.2.key ≠ s.2.key) ∧ NoReuse rest
 
 end AY.Resolve
